@@ -8,11 +8,11 @@ CONSTANTS
   DefVals <- DefValsWide
   StepPool = {}
   ExtrasPool = {}
-  MaxAssets = 3
+  MaxAssets <- MaxAssetsDef
   MaxAssocs = 3
   MaxAtk = 0
   MaxH = 12
-  MaxMembers = 3
+  MaxMembers <- MaxMembersDef
 CONSTRAINT Bound
 CONSTRAINT StopAtEnd
 CONSTRAINT FewRejections
